@@ -232,6 +232,47 @@ Definition setcol_value (t : ltable) (name : string) (v : lcol) (same_owner is_o
                      (l_cols t ++ [{| lc_kind := lc_kind v; lc_rowid := idx_of_list (ia (l_rowid t));
                                       lc_cells := lc_cells v; lc_owner := true; lc_tc := true |}])).
 
+(* ---------- DataMatrix.__lshift__: a new table of k_concat_len rows; every column of self is created with default
+   cells and its first rows are filled by the slice [:k_concat_left_stop]; every column of other is created if missing
+   (a same-named column of another type is a TypeError) and filled by the slice [k_concat_right_start:] ---------- *)
+Definition lview (t : ltable) : list (string * lcol) :=
+  flat_map (fun '(n, i) => match nth_error (l_cols t) i with Some c => [(n, c)] | None => [] end) (l_names t).
+
+Definition fill_slice (total : nat) (a b : option Z) (cells : list val) (k : kind) (base : list val) : list val :=
+  write_at (slice_pos total a b) cells base.
+
+Definition concat_l (a b : ltable) (newfam : nat) : res ltable :=
+  let na := nrows_l a in let nb := nrows_l b in
+  let total := Z.to_nat (k_concat_len (Z.of_nat na) (Z.of_nat nb)) in
+  let va := lview a in let vb := lview b in
+  let findc (n : string) (v : list (string * lcol)) := lookup n v in
+  if existsb (fun '(n, c) => match findc n va with
+                             | Some c2 => negb (kind_eqb (lc_kind c) (lc_kind c2))
+                             | None => false end) vb
+  then Raise TypeError
+  else
+    let mk (n : string) (k : kind) (cells : list val) :=
+        (n, {| lc_kind := k; lc_rowid := idx_of_list (iotaN 0 total); lc_cells := cells; lc_owner := true; lc_tc := true |}) in
+    let cols_a := map (fun '(n, c) =>
+                         let left := fill_slice total None (Some (k_concat_left_stop (Z.of_nat na))) (lc_cells c) (lc_kind c)
+                                                (repeat (default_cell (lc_kind c)) total) in
+                         mk n (lc_kind c)
+                            match findc n vb with
+                            | Some c2 => fill_slice total (Some (k_concat_right_start (Z.of_nat na))) None (lc_cells c2) (lc_kind c) left
+                            | None => left
+                            end) va in
+    let cols_b := flat_map (fun '(n, c) =>
+                              match findc n va with
+                              | Some _ => []
+                              | None => [mk n (lc_kind c)
+                                            (fill_slice total (Some (k_concat_right_start (Z.of_nat na))) None (lc_cells c) (lc_kind c)
+                                                        (repeat (default_cell (lc_kind c)) total))]
+                              end) vb in
+    let cols := cols_a ++ cols_b in
+    Ok {| l_fam := newfam; l_rowid := idx_range total;
+          l_names := combine (map fst cols) (seq 0 (List.length cols));
+          l_cols := map snd cols; l_sorted := true; l_dflt := KMixed |}.
+
 (* ---------- one L1 step on the operations whose algorithms are id-based ---------- *)
 Inductive lres := LNew (t : ltable) | LUpd (i : nat) (t : ltable) | LErr | LErrUpd (i : nat) (t : ltable) | LSkip.
 (* LErrUpd: the operation raised after a partial effect *)
